@@ -3,6 +3,7 @@
 // driver through the atomic shim (see checks/c07.py), so every atomic operation of the queues, start(), stop(),
 // the worker loop and the balance thread is a scheduling point; worker/balance threads are std::threads created
 // by start() from inside a scheduled body (pthread_create/join interposed).
+// (strategy + 10 = same strategy with spurious futex_wait returns injected)
 // stdin lines: <case-id> <seed> <strategy> <kind> <workers> <global-cap> <local-cap> <steal> <balance-us> <bodies> <threads>
 //   kind     P thread pool | I inplace | T always-new-thread | F executor whose invoke refuses (BasicExecutor::invoke)
 //   bodies   task table, ';'-separated, entry i = children task i submits while it runs ("-" none, else "a.b.c")
@@ -177,7 +178,7 @@ int main() {
       }
       if (world.pool && !world.destroyed) { world.destroyed = true; delete world.pool; }   // destructor: second stop() is a no-op
     });
-    verif::Options opt; opt.seed = seed; opt.strategy = strategy; opt.max_steps = 400000;
+    verif::Options opt; opt.seed = seed; opt.strategy = strategy % 10; opt.spurious_futex = strategy >= 10; opt.max_steps = 400000;
     verif::Result r = verif::run(bodies_fn, opt);
     // ---- monitors -------------------------------------------------------------------------------------------
     size_t n = world.tasks.size();
